@@ -45,6 +45,8 @@ def vsexp(t, d, cache, form="py"):
         dt = T.scalars()[t[1]]._dtype
         return f"(bits {bits_of(t, d)})", dt.type(d)
     if k == "string":
+        if isinstance(d, tuple):
+            return f"(cap {d[1]})", d[1]
         return (f"(str {d.encode().hex()})" if d else "(str)"), d
     if k == "struct":
         parts, arg = [], {}
@@ -206,6 +208,8 @@ def doc_decode(t, mem, off, parts=None, base=None):
         data = bytes(mem[off + 8: off + size])
         z = data.find(b"\x00")
         if z < 0:
+            if len(data) == 0:      # String(0): no room for any byte, the empty string
+                return "s"
             raise DocError("string not NUL-terminated")
         return "s" + data[:z].hex()
     if k == "ref":
@@ -351,8 +355,8 @@ def new_case(r, refs, max_depth=3):
     g = T.G(r, refs=refs)
     while True:
         t = g.ty(r.choice([1, 2, 2, 3][: max_depth + 1]), compound_only=True)
-        if t[0] in ("ref",) or T.names_clash(t):
-            continue
+        if t[0] in ("ref", "uref") or T.names_clash(t):
+            continue            # a bare Ref / UnionRef slot is not an object of its own
         return t
 
 
@@ -371,3 +375,491 @@ def nested_parts(t, obj, cache, base, out, path=()):
             sub = obj[idx if len(idx) > 1 else idx[0]]
             out.append((path + (idx,), int(sub._offset) - base, int(sub._get_size()), len(path) + 1))
             nested_parts(t[1], sub, cache, base, out, path + (idx,))
+
+
+# ----------------------------------------------------------------------------------------------------- the cases
+
+def pstr(path):
+    return "/".join(("f:" + s[1]) if s[0] == "f" else ("i:" + ",".join(map(str, s[1]))) for s in path) or "-"
+
+
+def value_paths(t, e, prefix=()):
+    """(path, slot type, intended sub-value) of every slot incl. compound nodes; not through None"""
+    yield prefix, t, e
+    k = t[0]
+    if k == "struct":
+        for n, ft in t[2]:
+            yield from value_paths(ft, e[n], prefix + (("f", n),))
+    elif k == "array":
+        _, shape, data = e
+        for idx in itertools.product(*[range(s) for s in shape]):
+            x = data
+            for i in idx:
+                x = x[i]
+            yield from value_paths(t[1], x, prefix + (("i", idx),))
+    elif k == "ref":
+        if e is not None:
+            for p, tt, ee in value_paths(t[1], e, prefix):
+                if p != prefix:
+                    yield p, tt, ee
+    elif k == "uref":
+        if e is not None:
+            for p, tt, ee in value_paths(t[2][e[1]], e[2], prefix):
+                if p != prefix:
+                    yield p, tt, ee
+
+
+def nav(obj, path):
+    cur = obj
+    for s in path:
+        cur = getattr(cur, s[1]) if s[0] == "f" else cur[s[1] if len(s[1]) > 1 else s[1][0]]
+    return cur
+
+
+def nav_set(obj, path, value):
+    cont = nav(obj, path[:-1])
+    s = path[-1]
+    if s[0] == "f":
+        setattr(cont, s[1], value)
+    else:
+        cont[s[1] if len(s[1]) > 1 else s[1][0]] = value
+
+
+def replace_at(t, e, path, new):
+    """intended value with the slot at `path` replaced"""
+    if not path:
+        return new
+    s = path[0]
+    k = t[0]
+    if k == "ref":
+        return replace_at(t[1], e, path, new)
+    if k == "uref":
+        return ("U", e[1], replace_at(t[2][e[1]], e[2], path, new))
+    if s[0] == "f":
+        ft = dict(t[2])[s[1]]
+        out = dict(e)
+        out[s[1]] = replace_at(ft, e[s[1]], path[1:], new)
+        return out
+    _, shape, data = e
+
+    def rep(x, idx):
+        if not idx:
+            return replace_at(t[1], x, path[1:], new)
+        return [rep(y, idx[1:]) if i == idx[0] else y for i, y in enumerate(x)]
+
+    return ("ARR", shape, rep(data, list(s[1])))
+
+
+def caches_str(obj):
+    """the structure a handle caches, as int lists"""
+    out = [f"size={int(obj._get_size())}"]
+    if hasattr(obj, "_shape"):
+        out.append("shape=" + ",".join(str(int(x)) for x in obj._shape))
+        out.append("strides=" + ",".join(str(int(x)) for x in obj._strides))
+    return " ".join(out)
+
+
+class Run:
+    def __init__(self):
+        self.lines, self.expect, self.ctxs = [], [], []
+        self.fails, self.tags = [], collections.Counter()
+        self.hist = {}
+        self.distinct = set()
+
+    def fail(self, key, what, ctx):
+        self.fails.append(common.Failure("oracle", key, what, ctx))
+
+
+def case_ctx(t, d, form, ops):
+    return {"component": "lay", "type": T.sexp(t), "value": repr(d)[:3000], "form": form, "ops": list(ops)}
+
+
+def run_case(R, r, refs, mutate=True, forms=("py", "py", "nd", "ndobj")):
+    t = new_case(r, refs)
+    d, e = T.val(t, r)
+    form = r.choice(forms)
+    exec_case(R, r, t, d, e, form, mutate)
+
+
+def exec_case(R, r, t, d, e, form, mutate=True):
+    xo = common.import_xobjects()
+    cache = {}
+    try:
+        cls = T.build(t, cache)
+    except Exception as ex:
+        R.tags["build-exc:" + type(ex).__name__] += 1
+        return
+    if T.has_zero_nd(t, d) and form != "nd":
+        R.tags["skip.zero-dim-list"] += 1     # O-23: N-D values with a zero dimension are not expressible as nested lists
+        return
+    if form == "nd" and T.has_zero_nd(t, d) and not (t[0] == "array" and t[1][0] == "scalar"):
+        R.tags["skip.zero-dim-list"] += 1
+        return
+    vs, arg = vsexp(t, d, cache, form)
+    ops, exp = [], []
+    tb, ctx_, live = make_placement(r, ops, exp)
+    buf = tb.buf
+    before = image(buf)
+    cap0 = buf.capacity
+    tb.take()
+    cctx = case_ctx(t, d, form, ops)
+    sx = T.sexp(t)
+    R.distinct.add(sx + vs)
+    T.kind_hist(t, R.hist)
+    R.tags["form." + form] += 1
+    try:
+        obj = cls(*arg, _buffer=buf) if t[0] == "uref" and arg is not None else cls(arg, _buffer=buf)
+    except Exception as ex:
+        R.tags[f"ctor-exc:{type(ex).__name__}"] += 1
+        R.fail("C01:constructor-raises:" + type(ex).__name__, f"{sx[:200]} from {form} value {repr(d)[:200]}: {type(ex).__name__}: {str(ex)[:200]}", cctx)
+        return
+    allocs = tb.take()
+    after = image(buf)
+    off = int(obj._offset)
+    size = int(obj._get_size()) if hasattr(obj, "_get_size") else int(cls._size)
+    ops.append(f"type T {sx}")
+    exp.append("ok")
+    ops.append(f"new T h {vs}")
+    exp.append(f"off {off} size {size} cap {buf.capacity} mem {after.hex()}")
+    want = expect_str(t, e, cache)
+    # ---------------- C03: frame, size, nesting
+    extents = [(o, n) for o, n in allocs]
+    own = [(o, n) for o, n in allocs if o == off]
+    if not own or own[0][1] != size:
+        R.fail("C03:size-vs-extent", f"{sx[:200]}: reports size {size} at {off} but reserved {own} (allocations {allocs})", cctx)
+    allowed = bytearray(len(after))
+    for o, n in extents:
+        for i in range(o, min(o + n, len(after))):
+            allowed[i] = 1
+    grown = after[:len(before)]
+    bad = [i for i in range(len(before)) if before[i] != grown[i] and not allowed[i]]
+    if bad:
+        R.fail("C03:writes-outside", f"{sx[:200]} value {repr(d)[:160]}: constructing at {off} (size {size}) changed bytes {bad[:8]} outside the extents it reserved {extents}", cctx)
+    for o, n in live:
+        if after[o:o + n] != before[o:o + n]:
+            R.fail("C03:neighbour-overwritten", f"{sx[:200]}: live neighbour [{o},{o + n}) changed", cctx)
+    try:
+        parts = []
+        nested_parts(t, obj, cache, off, parts)
+        for p, po, ps, depth in parts:
+            if po < 0 or po + ps > size:
+                R.fail("C03:part-outside-parent", f"{sx[:200]} value {repr(d)[:120]}: part {p} occupies [{po},{po + ps}) of an object of size {size}", cctx)
+                break
+        top = sorted((po, ps, p) for p, po, ps, depth in parts if depth == 1)
+        for (a, an, ap), (b, bn, bp) in zip(top, top[1:]):
+            if a + an > b:
+                R.fail("C03:siblings-overlap", f"{sx[:200]}: parts {ap} [{a},{a + an}) and {bp} [{b},{b + bn}) overlap", cctx)
+                break
+    except Exception:
+        pass  # reading problems are reported under C01/C06
+    # ---------------- C01: deep read through the handle
+    try:
+        got = deep_str(t, obj, cache)
+        if got != want:
+            R.fail("C01:value-differs", f"{sx[:200]} from {form}: wrote {want[:160]}, the handle reads {got[:160]}", cctx)
+        else:
+            R.tags["C01.ok"] += 1
+    except Exception as ex:
+        got = "EXC " + exc_name(ex)
+        R.fail("C01:read-raises:" + type(ex).__name__, f"{sx[:200]} from {form} value {repr(d)[:160]}: reading back raises {type(ex).__name__}: {str(ex)[:160]}", cctx)
+    ops.append("deep h -")
+    exp.append("val " + got if not got.startswith("EXC") else None)
+    # ---------------- C06: view from (buffer, offset)
+    view = None
+    try:
+        view = cls._from_buffer(buf, off)
+        gv = deep_str(t, view, cache)
+        if gv != got and not got.startswith("EXC"):
+            R.fail("C06:view-value-differs", f"{sx[:200]}: handle reads {got[:140]}, a view of the same bytes reads {gv[:140]}", cctx)
+        if hasattr(obj, "_get_size") and caches_str(view) != caches_str(obj):
+            R.fail("C06:view-structure-differs", f"{sx[:200]}: handle {caches_str(obj)} vs view {caches_str(view)}", cctx)
+        R.tags["C06.view"] += 1
+    except Exception as ex:
+        R.fail("C06:view-raises:" + type(ex).__name__, f"{sx[:200]} value {repr(d)[:160]}: reading through a view raises {type(ex).__name__}: {str(ex)[:160]}", cctx)
+    # ---------------- C05: documentation-only decoder on the raw bytes
+    try:
+        parts5 = []
+        dd = doc_decode(t, after, off, parts5)
+        if dd != want:
+            R.fail("C05:decoded-differs", f"{sx[:200]} from {form}: the documented format decodes to {dd[:150]}, written was {want[:150]}", cctx)
+        mis = [(po, kk) for po, kk in parts5 if po % 8]
+        if mis:
+            R.fail("C05:part-off-slot", f"{sx[:200]} value {repr(d)[:120]}: parts at {mis[:4]} (relative to the object) are not on 8-byte slots", cctx)
+        R.tags["C05.decoded"] += 1
+    except DocError as ex:
+        R.fail("C05:not-decodable", f"{sx[:200]} from {form} value {repr(d)[:120]}: bytes do not follow the documented layout: {ex}", cctx)
+    except Exception as ex:
+        R.fail("C05:not-decodable", f"{sx[:200]} from {form}: decoder error {type(ex).__name__} {str(ex)[:100]}", cctx)
+    # ---------------- element reads, bad indices, assignments (model tie + C10/C11 oracles)
+    if mutate and view is not None:
+        mutate_case(R, r, t, d, e, obj, view, cls, cache, buf, ops, exp, cctx, sx)
+    k0 = len(R.lines)
+    R.lines += ops
+    R.expect += exp
+    R.ctxs += [cctx] * len(ops)
+    cctx["first_line"] = k0
+
+
+def mutate_case(R, r, t, d, e, obj, view, cls, cache, buf, ops, exp, cctx, sx):
+    allp = [p for p in value_paths(t, e) if p[0]]
+    if not allp:
+        return
+    cur_e = e
+    for _ in range(r.randrange(1, 5)):
+        path, st, sub = r.choice(allp)
+        kind = r.choice(["get", "badidx", "set", "set", "setmisfit", "badlen"])
+        h = r.choice([obj, view])
+        hname = "handle" if h is obj else "view"
+        if kind == "get":
+            try:
+                val = "val " + deep_str(st, nav(h, path), cache)
+            except Exception as ex:
+                val = "err " + exc_name(ex)
+            ops.append(f"deep h {pstr(path)}")
+            exp.append(val)
+            R.tags["op.get"] += 1
+        elif kind == "badidx":
+            ip = [k for k, s in enumerate(path) if s[0] == "i"]
+            if not ip:
+                continue
+            k = ip[-1]
+            idx = list(path[k][1])
+            j = r.randrange(len(idx))
+            try:
+                shape = [int(q) for q in nav(obj, path[:k])._shape]
+            except Exception:
+                continue
+            idx[j] = r.choice([-1, shape[j], shape[j] + 3, -shape[j] - 1])
+            p2 = path[:k] + (("i", tuple(idx)),)
+            before = image(buf)
+            try:
+                nav(h, p2)
+                val = "val ?"
+                R.fail("C11:bad-index-accepted", f"{sx[:200]}: reading index {tuple(idx)} of an array of shape {shape} through the {hname} succeeds", dict(cctx, path=pstr(p2)))
+            except Exception as ex:
+                val = "err " + exc_name(ex)
+            # also as an assignment target
+            ops.append(f"deep h {pstr(p2)}")
+            exp.append(val if val != "val ?" else None)
+            R.tags["op.badidx"] += 1
+            if image(buf) != before:
+                R.fail("C11:bad-index-side-effect", f"{sx[:200]}: refused index {tuple(idx)} changed the buffer", cctx)
+        else:
+            if st[0] in ("ref", "uref"):
+                continue
+            nd_, ne = T.val(st, r)
+            if st[0] == "array" and kind == "set":
+                _, shape, _x = sub
+
+                def mk(dims):
+                    if not dims:
+                        return T.val(st[1], r)
+                    items = [mk(dims[1:]) for _ in range(dims[0])]
+                    return [i[0] for i in items], [i[1] for i in items]
+
+                a, b = mk(shape)
+                nd_, ne = ("ARR", shape, a), ("ARR", shape, b)
+            if kind == "badlen":
+                if st[0] != "array":
+                    continue
+                _, shape, _x = sub
+                shape2 = list(shape)
+                shape2[r.randrange(len(shape2))] += r.choice([1, 2])
+
+                def mk2(dims):
+                    if not dims:
+                        return T.val(st[1], r)[0]
+                    return [mk2(dims[1:]) for _ in range(dims[0])]
+
+                nd_ = ("ARR", shape2, mk2(shape2))
+                ne = None
+            if T.has_zero_nd(st, nd_):
+                continue
+            vs2, arg2 = vsexp(st, nd_, cache, "py")
+            before = image(buf)
+            cap_b = buf.capacity
+            try:
+                old = deep_str(t, obj, cache)
+            except Exception:
+                old = None
+            try:
+                nav_set(h, path, arg2)
+                res = "ok"
+            except Exception as ex:
+                res = "err " + exc_name(ex)
+            after = image(buf)
+            ops.append(f"set h {pstr(path)} {vs2}")
+            exp.append(f"{res} cap {buf.capacity} mem {after.hex()}")
+            R.tags[f"op.{kind}.{st[0]}.{res.split()[0]}"] += 1
+            c2 = dict(cctx, path=pstr(path), assigned=repr(nd_)[:400], through=hname)
+            try:
+                now = deep_str(t, obj, cache)
+            except Exception as ex:
+                now = "EXC " + exc_name(ex)
+                R.fail("C10:read-after-set-raises", f"{sx[:200]}: after assigning {repr(nd_)[:100]} to {pstr(path)} reading raises {type(ex).__name__}: {str(ex)[:100]}", c2)
+            if res == "ok":
+                if kind == "badlen":
+                    R.fail("C11:wrong-shape-accepted", f"{sx[:200]}: assigning a value of shape {nd_[1]} to {pstr(path)} (shape {sub[1]}) through the {hname} succeeds", c2)
+                # fitting? the space fixed at creation is the stored extent of the slot
+                new_e = replace_at(t, cur_e, path, ne) if ne is not None else None
+                if new_e is not None:
+                    w2 = expect_str(t, new_e, cache)
+                    if now == w2:
+                        cur_e = new_e
+                        R.tags["C10.ok"] += 1
+                        # locality in bytes: nothing outside the object's extent (and referenced extents) changes
+                    elif not now.startswith("EXC"):
+                        R.fail("C10:set-not-local" if old is not None else "C10:set-wrong",
+                               f"{sx[:200]}: after assigning {repr(nd_)[:100]} to {pstr(path)} through the {hname} the object reads {now[:140]}, expected {w2[:140]}", c2)
+                        break
+                lo, hi = int(obj._offset), int(obj._offset) + int(obj._get_size() if hasattr(obj, "_get_size") else cls._size)
+                refs = "(ref " in sx or "(uref " in sx
+                if not refs:
+                    ch = [i for i in range(min(len(before), len(after))) if before[i] != after[i] and not lo <= i < hi]
+                    if ch:
+                        R.fail("C03:set-writes-outside", f"{sx[:200]}: assigning {repr(nd_)[:100]} to {pstr(path)} changed bytes {ch[:8]} outside the object [{lo},{hi})", c2)
+                        break
+            else:
+                if after != before or buf.capacity != cap_b:
+                    ch = [i for i in range(min(len(before), len(after))) if before[i] != after[i]]
+                    what = {"struct": "struct-dict", "array": "array-value"}.get(st[0], st[0])
+                    R.fail("C11:error-with-side-effect:" + what, f"{sx[:200]}: assigning {repr(nd_)[:100]} to {pstr(path)} through the {hname} raised {res} but changed bytes {ch[:8]}", c2)
+                    break
+                if old is not None and now != old:
+                    R.fail("C11:error-with-side-effect", f"{sx[:200]}: refused assignment changed the value", c2)
+            ops.append("deep h -")
+            exp.append("val " + now if not now.startswith("EXC") else None)
+            # paths may be stale after a structural change: stop mutating this object
+            break
+
+
+def run_fixed(R, t, d, e, path, new_d, name):
+    """one fixed case of the corpus: construct t from d, then assign new_d at path (protocol lines + C10/C11 oracle)"""
+    xo = common.import_xobjects()
+    cache = {}
+    cls = T.build(t, cache)
+    vs, arg = vsexp(t, d, cache, "py")
+    ctx = xo.ContextCpu()
+    buf = ctx.new_buffer(256)
+    buf.update_from_buffer(0, bytes([0xA5]) * 256)
+    ops, exp = ["buf 256 8", "fill 0 256 165"], ["ok", "ok"]
+    junk = buf.allocate(8)
+    ops.append("alloc 8")
+    exp.append(f"off {junk}")
+    obj = cls(arg, _buffer=buf)
+    sx = T.sexp(t)
+    cctx = case_ctx(t, d, "py", ops)
+    cctx["corpus"] = name
+    ops += [f"type T {sx}", f"new T h {vs}"]
+    exp += ["ok", f"off {int(obj._offset)} size {int(obj._get_size())} cap {buf.capacity} mem {image(buf).hex()}"]
+    st = t
+    for s in path:
+        st = dict(st[2])[s[1]] if s[0] == "f" else st[1]
+    vs2, arg2 = vsexp(st, new_d, cache, "py")
+    before = image(buf)
+    try:
+        nav_set(obj, path, arg2)
+        res = "ok"
+    except Exception as ex:
+        res = "err " + exc_name(ex)
+    after = image(buf)
+    ops.append(f"set h {pstr(path)} {vs2}")
+    exp.append(f"{res} cap {buf.capacity} mem {after.hex()}")
+    if res != "ok" and after != before:
+        ch = [i for i in range(len(before)) if before[i] != after[i]]
+        what = {"struct": "struct-dict", "array": "array-value"}.get(st[0], st[0])
+        R.fail("C11:error-with-side-effect:" + what, f"{sx[:200]}: assigning {repr(new_d)[:120]} to {pstr(path)} raised {res} but changed bytes {ch[:8]}", cctx)
+    R.tags["corpus." + name] += 1
+    R.lines += ops
+    R.expect += exp
+    R.ctxs += [cctx] * len(ops)
+
+
+def run_corpus(R):
+    """minimised past findings; run first on every run"""
+    # O-13: dict update of a nested struct is not atomic (known finding)
+    t = ("struct", "S174", [("f0", ("struct", "S175", [("f0", ("scalar", 3)), ("f1", ("scalar", 2)), ("f2", ("string",))]))])
+    d = {"f0": {"f0": 1, "f1": 2, "f2": "a"}}
+    run_fixed(R, t, d, d, (("f", "f0"),), {"f0": 0, "f1": 8511693486216555650, "f2": "abcdefgh"}, "O-13")
+    # O-11: a longer string must be refused and leave everything unchanged
+    t = ("struct", "S109", [("f0", ("string",)), ("f1", ("scalar", 1)), ("f2", ("scalar", 7))])
+    d = {"f0": "hé", "f1": 1.5, "f2": 7}
+    run_fixed(R, t, d, d, (("f", "f0"),), "q" * 33, "O-11")
+    t = ("array", ("string",), [None], [0])
+    d = ("ARR", [3], ["abcdefgh", "x" * 17, "q" * 33])
+    run_fixed(R, t, d, d, (("i", (0,)),), "q" * 33, "O-11b")
+    # constructions that failed on the pinned tree (O-3, O-5/O-25, O-6, O-7, O-8): construct, read through handle and view, decode
+    r = random.Random(12345)
+    fixed = [
+        # O-3: non-C axis order from an ndarray
+        (("array", ("scalar", 3), [3, 3, 1], [1, 0, 2]), ("ARR", [3, 3, 1], [[[1], [2], [3]], [[4], [5], [6]], [[7], [8], [9]]]), "nd"),
+        (("array", ("scalar", 0), [None, 2], [1, 0]), ("ARR", [3, 2], [[1.0, 2.0], [3.0, 4.0], [5.0, 6.0]]), "nd"),
+        # O-5 / O-25: nested dynamic items from nested lists
+        (("array", ("array", ("string",), [1, 1], [0, 1]), [3, None], [1, 0]),
+         ("ARR", [3, 1], [[("ARR", [1, 1], [["abcdefghijklmno"]])], [("ARR", [1, 1], [["q" * 33]])], [("ARR", [1, 1], [["abcdefg"]])]]), "py"),
+        # O-6 / O-8: offset table of a non-C order array of dynamically sized items, read through a view
+        (("array", ("array", ("scalar", 3), [1, None, 2], [0, 1, 2]), [2, 2], [1, 0]),
+         ("ARR", [2, 2], [[("ARR", [1, 1, 2], [[[1, 2]]]), ("ARR", [1, 1, 2], [[[3, 4]]])],
+                          [("ARR", [1, 2, 2], [[[5, 6], [7, 8]]]), ("ARR", [1, 1, 2], [[[9, 10]]])]]), "ndobj"),
+        (("array", ("string",), [2, None, 2], [2, 0, 1]),
+         ("ARR", [2, 3, 2], [[["a", "bb"], ["ccc", "dddd"], ["e" * 9, ""]], [["f", "g" * 17], ["h", "i"], ["j", "k" * 8]]]), "py"),
+        # O-7: capacity strings among array items
+        (("struct", "S127", [("f1", ("scalar", 5)), ("f2", ("array", ("string",), [2], [0]))]),
+         {"f1": 0, "f2": ("ARR", [2], [("CAP", 7), "abcdefgh"])}, "py"),
+        # O-4: String(capacity) in reused memory
+        (("struct", "S22", [("f0", ("string",)), ("f1", ("scalar", 7))]), {"f0": ("CAP", 10), "f1": 24784}, "py"),
+    ]
+    for t, d, form in fixed:
+        def exp_of(tt, dd):
+            if tt[0] == "string":
+                return "" if isinstance(dd, tuple) else dd
+            if tt[0] == "struct":
+                return {n: exp_of(ft, dd[n]) for n, ft in tt[2]}
+            if tt[0] == "array":
+                def walk(x, dims):
+                    if not dims:
+                        return exp_of(tt[1], x)
+                    return [walk(y, dims[1:]) for y in x]
+                return ("ARR", dd[1], walk(dd[2], dd[1]))
+            if tt[0] == "scalar" and T.scalars()[tt[1]]._dtype.kind == "f":
+                return float(dd)
+            return dd
+        exec_case(R, r, t, d, exp_of(t, d), form, mutate=False)
+
+
+def run_all(tier, seed, refs=False, n=None, mutate=True):
+    r = random.Random(seed * 1000003 + (77 if refs else 13))
+    R = Run()
+    n = n or {"quick": 160, "thorough": 4000}[tier]
+    if not refs:
+        run_corpus(R)
+    for _ in range(n):
+        run_case(R, r, refs, mutate=mutate)
+    got = common.run_driver_sharded("lay", split_cases(R), nproc=8 if n > 400 else 2)
+    got = [g for part in got for g in part]
+    mism = []
+    for i, (l, e, g, c) in enumerate(zip(R.lines, R.expect, got, R.ctxs)):
+        if e is None:
+            continue
+        if e != g:
+            what = f"`{l[:120]}`: implementation `{e[:100]}` model `{g[:100]}`"
+            if " mem " in e and " mem " in g and e.split(" mem ")[0] == g.split(" mem ")[0]:
+                a, b = e.split(" mem ")[1], g.split(" mem ")[1]
+                k = next((k for k in range(0, min(len(a), len(b)), 2) if a[k:k + 2] != b[k:k + 2]), None)
+                what = f"`{l[:160]}`: same offset/size, buffer images differ first at byte {None if k is None else k // 2} (lengths {len(a) // 2}/{len(b) // 2})"
+            mism.append(common.Failure("tie", "lay-tie:" + l.split()[0], f"{c['type'][:200]} value {c['value'][:120]}: {what}", c))
+    return {"failures": R.fails, "mismatches": mism, "lines": len(R.lines), "distinct": len(R.distinct), "tags": dict(R.tags),
+            "hist": R.hist, "samples": [f"{c['type'][:120]} <- {c['value'][:80]}" for c in R.ctxs[::max(1, len(R.ctxs) // 5)]][:6]}
+
+
+def split_cases(R):
+    """protocol lines grouped per case (each case starts with `buf`)"""
+    cases, cur = [], []
+    for l in R.lines:
+        if l.startswith("buf ") and cur:
+            cases.append(cur)
+            cur = []
+        cur.append(l)
+    if cur:
+        cases.append(cur)
+    return cases
